@@ -62,6 +62,7 @@ def ins_corpus(tier, seed):
         ins_spec("offlow2", s + 7, 100, max_iteration=3),         # ln Z ~ -700: exp(ln Z) underflows float64
         ins_spec("offhigh2", s + 8, 100, max_iteration=3),        # ln Z ~ +700
         ins_spec("uprior2", s + 9, 100, max_iteration=4),         # prior not uniform in the unit hypercube
+        ins_spec("offvlow2", s + 10, 100, max_iteration=3),       # ln L ~ -2e4: exp(ln Z) underflows long double
     ]
     if tier == "thorough":
         k = 6
